@@ -87,7 +87,7 @@ class Knobs:
 
 
 class SimConsole:
-    def __init__(self, net, inst, knobs=None):
+    def __init__(self, net, inst, knobs=None, host=None):
         self.net = net
         self.loop = net.loop
         self.log = net.log
@@ -102,8 +102,25 @@ class SimConsole:
         self.requests_seen = collections.Counter()
         self.parse_errors = []
         self.pid = 0x40
-        net.on_open = self._on_open
-        net.on_data = self._on_data
+        if host is None:
+            net.on_open = self._on_open
+            net.on_data = self._on_data
+        else:
+            # several consoles on one simulated network: connections are routed by host
+            routes = net.__dict__.setdefault("console_routes", {})
+            routes[host] = self
+
+            def on_open(conn):
+                con = routes.get(conn.host)
+                if con is not None:
+                    con._on_open(conn)
+
+            def on_data(conn, data):
+                con = routes.get(conn.host)
+                if con is not None:
+                    con._on_data(conn, data)
+            net.on_open = on_open
+            net.on_data = on_data
 
     # ------------------------------------------------------------- transport
     def _on_open(self, conn):
